@@ -99,3 +99,18 @@ Definition read_only (o : op) : bool :=
 Definition hexchar (c : N) : Prop :=
   (48 <= c <= 57) \/ (97 <= c <= 102) \/ (65 <= c <= 70).
 Definition is_hex64 (s : name) : Prop := length s = 64%nat /\ Forall hexchar s.
+
+(* ---------- the refinement relation ---------- *)
+(* canonical = the path of some key; listable = some type's directory walk parses it *)
+Definition canonical (p : path) : Prop := exists t i, wf_id i /\ p = lb_path t i.
+Definition listable (p : path) : Prop := exists t, t <> Config /\ entry_id t p <> None.
+
+Record R (f : fs) (m : amap) : Prop := {
+  R_nodup : NoDup (map fst f);
+  R_get : forall t i, wf_id i -> fs_get f (lb_path t i) = am_get m (norm t i);
+  (* every other file (foreign, temporary, left over by a crash) has a name no listing parses *)
+  R_stray : forall p, In p (map fst f) -> canonical p \/ ~ listable p;
+  R_mnodup : NoDup (map fst m);
+  R_mkeys : forall k, In k (map fst m) -> exists t i, wf_id i /\ k = norm t i;
+  R_small : forall k b, In (k, b) m -> N.of_nat (length b) < 2 ^ 32
+}.
